@@ -73,7 +73,7 @@ func (s *memStmt) NumInput() int {
 	switch s.q {
 	case "GETSINCE":
 		return 2
-	case "LASTDATE":
+	case "LASTDATE", "LASTDATE_MAX":
 		return 1
 	case "APPEND":
 		return 7
@@ -127,6 +127,17 @@ func (s *memStmt) Query(args []driver.Value) (driver.Rows, error) {
 				break
 			}
 		}
+	case "LASTDATE_MAX":
+		// the aggregate form, SELECT MAX(date) ... WHERE name = ?: always one row, NULL when the
+		// asset has no snapshots
+		cols = []string{"date"}
+		var max driver.Value
+		for _, r := range s.db.rows {
+			if r.name == args[0].(string) && (max == nil || r.vals[0].(time.Time).After(max.(time.Time))) {
+				max = r.vals[0]
+			}
+		}
+		out = append(out, []driver.Value{max})
 	default:
 		return nil, fmt.Errorf("unknown query %q", s.q)
 	}
@@ -159,3 +170,10 @@ func (MemDialect) Assets() string      { return "ASSETS" }
 func (MemDialect) GetSince() string    { return "GETSINCE" }
 func (MemDialect) LastDate() string    { return "LASTDATE" }
 func (MemDialect) Append() string      { return "APPEND" }
+
+// MaxDialect is MemDialect whose last-date statement is the aggregate one: an asset without
+// snapshots yields one NULL row instead of no row.
+type MaxDialect struct{ MemDialect }
+
+// LastDate is the aggregate statement.
+func (MaxDialect) LastDate() string { return "LASTDATE_MAX" }
